@@ -202,13 +202,14 @@ def correspondence(ops, tag='ops'):
     mism = []
     dist = {}
     errs = {}
-    for op, a, b in zip(ops, impl, model):
+    for i, (op, a, b) in enumerate(zip(ops, impl, model)):
         k = op.split(' ', 1)[0]
         dist[k] = dist.get(k, 0) + 1
         if a.startswith('err'):
             errs[a[4:]] = errs.get(a[4:], 0) + 1
         if a != b:
-            mism.append({'op': op if len(op) < 400 else op[:400] + '…', 'impl': a[:400], 'model': b[:400], 'full_op': op})
+            mism.append({'op': op if len(op) < 400 else op[:400] + '…', 'impl': a[:400], 'model': b[:400], 'full_op': op,
+                         'context': [o for o in ops[max(0, i - 3):i] if len(o) < 2000]})
     return {'ops': len(ops), 'mismatches': mism, 'by_op': dist, 'impl_errors': errs,
             'distinct_ops': len(set(ops))}
 
